@@ -5,6 +5,8 @@ LEVEL = "proof"
 
 
 def run(ctx):
+    # leaf translator: theorems re-checked against the Gallina translation of the current Go source
+    generic.leaf_obligations(ctx, ['Rune'])
     generic.standard(ctx, "Props_C07", "c07", "safety", lists=("M",), ledger="known/C07.ledger",
                      expected_key="coq_expected_mismatches", timeout=3400, extra_args=["-hang", 150])
     ctx.coverage["explanation"] = (
